@@ -430,6 +430,21 @@ func (p *c21Prop) genCase(seed uint64, tier string) *c21Case {
 			}
 		}
 	}
+	if r.Intn(4) == 0 {
+		// the same for readers: each also renders the small validating tree with the default
+		// configuration and with a non-default one, so that calls with different options on one
+		// tree follow one another across tasks
+		for i := range c.Tasks {
+			if c.Workload == "readers" || (c.Workload == "mixed" && i%2 == 0) {
+				for _, v := range []string{"1", "0", "2"}[:2+r.Intn(2)] {
+					at := r.Intn(len(c.Tasks[i]) + 1)
+					ops := append([]Op{}, c.Tasks[i][:at]...)
+					ops = append(ops, Op{K: "emitjson-small", A: map[string]string{"i": v}})
+					c.Tasks[i] = append(ops, c.Tasks[i][at:]...)
+				}
+			}
+		}
+	}
 	c.Sched = c21Sched{Seed: simrt.Mix(seed, 5), MeanGap: []int{2, 5, 20, 100, 1000, 20000}[r.Intn(6)], Starve: -1}
 	c.Sched.LockBias = []int{0, 2, 4}[r.Intn(3)]
 	if seed%2 == 0 {
